@@ -418,7 +418,7 @@ def c_parts(case, obs):
             lc.c_span(new_spec), fv, strictarg, lib.clist('(%s, %s)' % kv for kv in fills), exp]
 
 
-SHARED = {0: 'span', 1: 'list (label * loc)', 2: 'list (label * bool)', 3: 'list (string * series cell)', 6: 'span'}   # components bound once per group
+SHARED = {0: 'span', 3: 'list (string * series cell)'}   # components bound once per group: old span, old variables (few distinct values)
 GROUP = 300
 
 
